@@ -82,7 +82,8 @@ pub fn run_property(c: &mut ctx::Ctx) -> bool {
     // ... and a sample of its own judged calls again, from 8 threads at once
     if c.pid != "C17" && !c.small {
         let mon = format!("{}.concurrent-replay", c.pid.to_lowercase());
-        props_c17::concurrent_replay(c, &mon);
+        let ops: &[&str] = own_ops(&c.pid).map(|x| x.1).unwrap_or(&[]);
+        props_c17::concurrent_replay(c, &mon, ops);
     }
     true
 }
